@@ -32,10 +32,33 @@ type e3Run struct {
 	dur  time.Duration
 }
 
+type rootCtx struct {
+	S    absint.PtrV
+	In   absint.StrV
+	Pos0 absint.Lin
+	Cur  absint.PtrV
+}
+
 type sqlRoots struct {
 	env  *e3Env
 	runs []*e3Run
 	mu   sync.Mutex
+	ctx  map[string]*rootCtx
+}
+
+func (sr *sqlRoots) setCtx(name string, c *rootCtx) {
+	sr.mu.Lock()
+	if sr.ctx == nil {
+		sr.ctx = map[string]*rootCtx{}
+	}
+	sr.ctx[name] = c
+	sr.mu.Unlock()
+}
+
+func (sr *sqlRoots) getCtx(name string) *rootCtx {
+	sr.mu.Lock()
+	defer sr.mu.Unlock()
+	return sr.ctx[name]
 }
 
 func (sr *sqlRoots) field(role string) string { return sr.env.a.Fields[role] }
@@ -269,6 +292,10 @@ func (sr *sqlRoots) runAll(extra func(name string, hooks *absint.Hooks)) {
 					m[b>>6] |= 1 << (uint(b) & 63)
 				}
 				e.SetMask(st, absint.ByteV{Root: in.Root, Idx: in.Lo.Add(pos0)}, m)
+				cu, _ := e.CellOf(st, S, sr.field("sql.state.current"))
+				cp, _ := cu.(absint.PtrV)
+				e.MarkFresh(st, cp, []string{sr.field("sql.token.pos"), sr.field("sql.token.len"), sr.field("sql.token.category")})
+				sr.setCtx(name, &rootCtx{S: S, In: in, Pos0: pos0, Cur: cp})
 			}
 			cfg.Hooks.OnReturn = func(e *absint.Engine, st *absint.State, fr *absint.Frame, ret *ssa.Return, val absint.AVal) {
 				sr.lexerReturnHook(tgt, pos0, length)(e, st, fr, ret, val)
@@ -307,6 +334,9 @@ func (sr *sqlRoots) runAll(extra func(name string, hooks *absint.Hooks)) {
 			ps, _ := e.CellOf(st, S, sr.field("sql.state.pos"))
 			pos0 = ps.(absint.IntV).L
 			length = absint.StrLenOf(in)
+			cu, _ := e.CellOf(st, S, sr.field("sql.state.current"))
+			cp, _ := cu.(absint.PtrV)
+			sr.setCtx("tokenize", &rootCtx{S: S, In: in, Pos0: pos0, Cur: cp})
 		})
 	})
 	// ---- the folding loop with tokenize and the small helpers summarised
